@@ -692,14 +692,20 @@ where
     }
 
     pub(crate) async fn next_inner(&mut self) -> Result<Option<ResultEntry>> {
+        let rx = match self.rx.as_mut() {
+            Some(rx) => rx,
+            // No Search is feeding the stream. This happens if a pending next() was dropped
+            // while an adapter was replacing a finished Search with its successor.
+            None => return Err(LdapError::EndOfStream),
+        };
         let item = if let Some(timeout) = self.timeout {
-            let res = time::timeout(timeout, self.rx.as_mut().unwrap().recv()).await;
+            let res = time::timeout(timeout, rx.recv()).await;
             if res.is_err() {
                 self.ldap.id_scrub_tx.send(self.msgid)?;
             }
             res?
         } else {
-            self.rx.as_mut().unwrap().recv().await
+            rx.recv().await
         };
         let (item, controls) = match item {
             Some((item, controls)) => (item, controls),
